@@ -35,3 +35,26 @@ def register(J):
     J.append(mk(4, "1n01", "0200", "0020", ":", ";", T))
     J.append(mk(3, "555", "555", "000", "=", "#", T))
     J.append(mk(2, "60", "06", "60", " ", "#", T))
+
+
+def register_ext(J):
+    pats = [("xxxxx", Q, 0), ("x.nx.", Q, 1), ("qx.nx", Q, 0), ("nn.x", T, 0), (".x", T, 0), ("xnxnx", Q, 1), ("x.x", T, 0),
+            ("..", T, 0), ("tx.nx", T, 1), ("qxxq.", T, 0), ("xxxxxx", T, 0)]
+    for pat, tiers, multi in pats:
+        n = len(pat)
+        J.append(Job("extvalue." + pat.replace(".", "_"), ["C17", "C14", "C10", "C20", "C04"], "harness/extvalue.c",
+                     sources=["lib/libeconf_ext.c", "lib/libeconf.c", "lib/helpers.c", "lib/keyfile.c"],
+                     stubs=["stubs/writer_tok.c", "stubs/numtext.c", "stubs/strdup_cap.c", "stubs/realloc_words.c"],
+                     contracts=["contracts/bufsiz_small.h", "stubs/asprintf_shim.h"], unwind=18,
+                     post_unwindset={"realloc.0": n + 4, "find_key.0": 3}, tier="T2",
+                     defines=['-DPAT="%s"' % pat, "-DREALLOC_WORDS=%d" % (n + 3)] + (["-DMULTI=1"] if multi else []),
+                     tiers=tiers, timeout=900, mem_gb=8, nobody_ok=[".*"],
+                     functions=["econf_getExtValue", "econf_freeExtValue", "econf_getPath", "getCommentsNum", "getPath",
+                                "getLineNrNum", "getStringValueNum", "find_key"],
+                     bounds="one entry; value shape %r (x symbolic printable byte, q quote, . blank, t tab, n newline); "
+                            "path/comments present or absent (symbolic); BUFSIZ scaled to 4" % pat,
+                     model="M-real; strdup with concrete capacity (stubs/strdup_cap.c)",
+                     statement="C17: the extended value reports path, line number, comments and the value split into "
+                               "blank-trimmed lines (one item if it starts with a quote); C14: nothing is cut off although "
+                               "the value is longer than BUFSIZ; C10: the stored value is untouched; C20: "
+                               "econf_freeExtValue releases the result (also NULL); econf_getPath returns a copy or \"\"."))
